@@ -79,6 +79,10 @@ impl TrackTableDataExt for ttf_parser::trak::TrackData<'_> {
             return None;
         }
 
+        if self.sizes.len() == 1 {
+            return track.values.get(0).map(i32::from);
+        }
+
         let mut idx = self
             .sizes
             .into_iter()
